@@ -106,6 +106,8 @@ TYPE_TABLE = [  # (value, spec source, expected relation)
     ("{'a': 1}", 'dict', True), ('True', 'bool', True), ("'x'", 'bool', False), ('None', 'str', False), ('5', 'str', False),
     ('5', 'int', True), ('5.5', 'float', True), ("'5'", 'float', False), ('[1, 2]', 'tuple', False), ("(1, 'a')", 'tuple', True),
     ("(1, 'a')", 'list', False), ('[]', 'list', True), ("['a']", "'list[str]'", True),
+    # the value is an error (a failed call, a call that ended in sys.exit(), an exception object): neither form holds
+    ('!error', 'int', 'error'), ('!exit', 'int', 'error'), ('!raw-exception', 'str', 'error'), ('!exit', "'list[int]'", 'error'),
 ]
 
 _state = {}
@@ -466,6 +468,11 @@ def judge_type(case):
             if out[0].startswith('raises') or out[0] == 'inconsistent':
                 viol.append(V('C07|%s|%s|spec=%s' % (name, out[0], 'generic' if '[' in spec_src else 'plain'),
                               '%s: %s %s' % (desc, out[0], out[1])))
+        if expect == 'error':
+            for name, out in (('assert_type', p), ('assert_not_type', n)):
+                if out[0] == 'silent':
+                    viol.append(V('C07|%s|silent-on-error-operand' % name, desc))
+            continue
         if expect and p[0] == 'failing':
             viol.append(V('C07|assert_type|fails-but-relation-holds', desc))
         if not expect and p[0] == 'silent':
